@@ -56,6 +56,9 @@ where T: std::str::FromStr + Clone, T::Err: std::fmt::Debug {
       "filter" => go!(v.iter().filter(|_| std::hint::black_box(true)).map(|_| ())),
       "chain" => { let (a, b) = v.split_at(v.len() / 2); go!(a.iter().chain(b.iter()).map(|_| ())) }
       "flat" => { let vv: Vec<Vec<T>> = v.chunks(2).map(|c| c.to_vec()).collect(); go!(vv.iter().flat_map(|c| c.iter()).map(|_| ())) }
+      // an exact part chained with a filtered part: inexact hint with a positive lower bound (k, Some(k + m))
+      "mixed" => { let (a, b) = v.split_at(v.len() / 2); go!(a.iter().chain(b.iter().filter(|_| std::hint::black_box(true))).map(|_| ())) }
+      "mixedrev" => { let (a, b) = v.split_at(v.len() / 3); go!(a.iter().filter(|_| std::hint::black_box(true)).chain(b.iter()).map(|_| ())) }
       _ => harness_error("iterator kind"),
    }
 }
